@@ -29,6 +29,9 @@ META = {
 
 def run(ctx, res):
     prog = ctx.prog("K0")
+    import bitio as _bitio
+    _bitio.rule_bitsem(prog, res)
+    _bitio.rule_signsem(prog, res)
     tabs = dispatch.coherence(prog, res, ctx.repo, dec_keys=dispatch.ROUNDTRIP_KEYS)
     memo = {}
     n = 0
